@@ -27,10 +27,10 @@ theorem Sim.emit {tick : Bool} {w w' : World} {ev : Ev} (hout : w'.out = w.out)
 theorem stepOp_sim {tick : Bool} {w : World} (hw : WheelInv w) (hs : Sim tick w) (self : Nat) (op : Op)
     (halive : isDead w self = false) : Sim tick (stepOp w self op).w := by
   cases op with
-  | co fn delay tag =>
+  | co fn delay tag fp =>
     unfold stepOp
     simp only [halive, Bool.false_eq_true, if_false]
-    exact Sim.emit (w := w) rfl (sim_co hw hs self fn delay tag halive)
+    exact Sim.emit (w := w) rfl (sim_co hw hs self fn delay tag fp halive)
   | rmh tag => exact Sim.emit (removeByHandle_frame w _).1 (sim_rmh hw hs self tag)
   | rmn fn => exact Sim.emit (removeByName_frame w self fn).1 (sim_rmn hw hs self fn halive)
   | fh tag => exact Sim.emit rfl (sim_fh hw hs self tag)
@@ -51,7 +51,7 @@ theorem stepOp_sim {tick : Bool} {w : World} (hw : WheelInv w) (hs : Sim tick w)
 theorem stepOp_alive {w : World} (self : Nat) (op : Op) (halive : isDead w self = false)
     (hstop : (stepOp w self op).stop = false) : isDead (stepOp w self op).w self = false := by
   cases op with
-  | co fn delay tag =>
+  | co fn delay tag fp =>
     unfold stepOp
     simp only [halive, Bool.false_eq_true, if_false]
     exact halive
@@ -109,21 +109,26 @@ theorem fireOne_sim (sc : Scripts) {w : World} (hw : WheelInv w) (hs : Sim true 
   unfold fireOne
   by_cases hdead : isDead (setSlot w (slotOf w.cot) rest) cop.c.owner = true
   · rw [if_pos hdead]
-    -- dropped silently: the oracle keeps it as an entry of a destructed owner whose time has come
-    refine ⟨hs.bad, hs.dead, hs.handles, hs.inTick, hs.allLt, hs.pendLt, hs.pendSorted, ?_, ?_⟩
-    · intro c hc
-      exact hs.wheelPend c ((inWheel_remove hw hcum (by simp) c).1 hc).1
-    · intro p hp
-      rcases hs.pendWheel p hp with ⟨c, hc1, hc2⟩ | hxx
-      · by_cases hcc : c = cop.c
-        · right
-          subst hcc
-          refine ⟨?_, ?_⟩
-          · rw [← hc2]; exact hdead
-          · rw [← hc2]; simp only [toPend, setSlot_cot]; omega
-        · left
-          exact ⟨c, (inWheel_remove hw hcum (by simp) c).2 ⟨hc1, hcc⟩, hc2⟩
-      · exact Or.inr hxx
+    -- dropped (silently, or with the "owner destructed" error of a function pointer): the oracle keeps it as
+    -- an entry of a destructed owner whose time has come
+    have hdrop : Sim true (setSlot w (slotOf w.cot) rest) := by
+      refine ⟨hs.bad, hs.dead, hs.handles, hs.inTick, hs.allLt, hs.pendLt, hs.pendSorted, ?_, ?_⟩
+      · intro c hc
+        exact hs.wheelPend c ((inWheel_remove hw hcum (by simp) c).1 hc).1
+      · intro p hp
+        rcases hs.pendWheel p hp with ⟨c, hc1, hc2⟩ | hxx
+        · by_cases hcc : c = cop.c
+          · right
+            subst hcc
+            refine ⟨?_, ?_⟩
+            · rw [← hc2]; exact hdead
+            · rw [← hc2]; simp only [toPend, setSlot_cot]; omega
+          · left
+            exact ⟨c, (inWheel_remove hw hcum (by simp) c).2 ⟨hc1, hcc⟩, hc2⟩
+        · exact Or.inr hxx
+    split
+    · exact Sim.emit (w := setSlot w (slotOf w.cot) rest) (ev := .errFpDead) rfl hdrop
+    · exact hdrop
   · rw [if_neg hdead]
     have hdead' : isDead w cop.c.owner = false := by
       have : isDead (setSlot w (slotOf w.cot) rest) cop.c.owner = isDead w cop.c.owner := rfl
@@ -164,15 +169,22 @@ theorem fireOne_sim (sc : Scripts) {w : World} (hw : WheelInv w) (hs : Sim true 
       have hnotearly : ¬ ((toPend cop.c).due > vnow w) := by
         have := hw.cot_le
         simp only [toPend, vnow]; omega
-      have hj : judgeStep (jstate w.out) (.fire (vnow w) cop.c.owner cop.c.fn cop.c.tag) =
+      have hwant : liveGiverJ (jstate w.out) (toPend cop.c).giver = liveGiver w cop.c.giver := by
+        unfold liveGiver liveGiverJ toPend
+        cases cop.c.giver with
+        | none => rfl
+        | some g => simp only [isDeadJ_eq hs]
+      have hj : judgeStep (jstate w.out) (.fire (vnow w) cop.c.owner cop.c.fn cop.c.tag (liveGiver w cop.c.giver)) =
           { jstate w.out with pend := rest' } := by
-        simp only [judgeStep, hs.inTick, if_true, hmin, hnotearly, if_false, isDeadJ_eq hs, hdead', hro,
-          Bool.false_eq_true]
-      have hs1 : Sim true (emit (setSlot w (slotOf w.cot) rest) (.fire (vnow w) cop.c.owner cop.c.fn cop.c.tag)) := by
+        simp only [judgeStep, hs.inTick, if_true, hmin, hnotearly, if_false, hwant, isDeadJ_eq hs, hdead', hro,
+          Bool.false_eq_true, beq_self_eq_true]
+      have hs1 : Sim true (emit { setSlot w (slotOf w.cot) rest with giver := liveGiver w cop.c.giver }
+          (.fire (vnow w) cop.c.owner cop.c.fn cop.c.tag (liveGiver w cop.c.giver))) := by
         refine Sim.emit (w := w) rfl ?_
         rw [hj]
-        exact SimJ.remove_pair hw hs hcum (by simp) hro
-      exact runOps_sim (w := emit (setSlot w (slotOf w.cot) rest) (.fire (vnow w) cop.c.owner cop.c.fn cop.c.tag))
+        exact (SimJ.remove_pair hw hs hcum (by simp) hro).congr rfl rfl rfl rfl rfl
+      exact runOps_sim (w := emit { setSlot w (slotOf w.cot) rest with giver := liveGiver w cop.c.giver }
+          (.fire (vnow w) cop.c.owner cop.c.fn cop.c.tag (liveGiver w cop.c.giver)))
         (h1.inv.congr rfl rfl rfl rfl) hs1 _ _ hdead'
 
 theorem visit_sim (sc : Scripts) (tm : Nat) : ∀ (fuel : Nat) (w : World), WheelInv w → w.cot ≠ 0 →
@@ -247,15 +259,16 @@ theorem sweepLoop_sim (sc : Scripts) : ∀ (fuel : Nat) (w : World), WheelInv w 
   | succ fuel ih =>
     intro w h hq h0 hs
     unfold sweepLoop
+    rw [tie_sweepCond]
     by_cases hlt : w.cot < w.now
-    · rw [if_pos hlt]
+    · rw [if_pos (by simpa using hlt)]
       obtain ⟨a, b, c, _, _⟩ := sweepSecond_ok sc h hq hlt
       exact ih _ a b (by rw [c]; omega) (sweepSecond_sim sc h hq hlt hs)
-    · rw [if_neg hlt]; exact hs
+    · rw [if_neg (by simpa using hlt)]; exact hs
 
-theorem sweep_sim (sc : Scripts) {w : World} (h : WheelInv w) (hq : Quiet w) (hs : Sim true w) :
-    Sim true (sweep sc w) := by
-  unfold sweep
+theorem sweepCore_sim (sc : Scripts) {w : World} (h : WheelInv w) (hq : Quiet w) (hs : Sim true w) :
+    Sim true (sweepCore sc w) := by
+  unfold sweepCore
   by_cases h0 : w.cot = 0
   · simp only [h0, if_true]
     have hi : WheelInv { w with cot := w.now } := by
@@ -276,5 +289,10 @@ theorem sweep_sim (sc : Scripts) {w : World} (h : WheelInv w) (hq : Quiet w) (hs
     exact sweepLoop_sim sc _ _ hi hq (by have := h.now_pos; show w.now ≠ 0; omega) hs'
   · simp only [h0, if_false]
     exact sweepLoop_sim sc _ _ h hq h0 hs
+
+theorem sweep_sim (sc : Scripts) {w : World} (h : WheelInv w) (hq : Quiet w) (hs : Sim true w) :
+    Sim true (sweep sc w) := by
+  rw [sweep_eq]
+  exact SimJ.congr (w := sweepCore sc w) (sweepCore_sim sc h hq hs) rfl rfl rfl rfl rfl
 
 end NV.C10
